@@ -76,6 +76,7 @@ class Registry:
         self.history: dict[str, list[str]] = {}  # "module:Class" -> two-state clauses over self
         self.invariants: dict[str, list[str]] = {}
         self.assumed: list[dict] = []  # free-text records of assumed (unchecked) contracts
+        self.ext_consts: dict[str, object] = {}  # dotted external name -> python constant (assumed)
 
     def contract(self, target, **kw) -> FunSpec:
         fs = FunSpec(target, **kw)
@@ -98,15 +99,20 @@ def history(target, *clauses):
     REG.history.setdefault(target, []).extend(clauses)
 
 
+def ext_const(name, value):
+    REG.ext_consts[name] = value
+
+
 def assumed(name, statement, where=""):
     REG.assumed.append({"name": name, "statement": statement, "where": where})
 
 
 class SpecFun:
-    def __init__(self, fn, recursive=False, sig=None, fuel=1):
+    def __init__(self, fn, recursive=False, sig=None, fuel=1, abstract=False):
         self.fn = fn
         self.name = fn.__name__
-        self.recursive = recursive
+        self.recursive = recursive or abstract
+        self.abstract = abstract  # uninterpreted: only the python body is used (at run time)
         self.sig = sig  # for recursive: ([arg types...], ret type) as strings
         self.fuel = fuel
         src = textwrap.dedent(inspect.getsource(fn))
@@ -118,9 +124,9 @@ class SpecFun:
         return self.fn(*a, **k)
 
 
-def spec(fn=None, *, recursive=False, sig=None, fuel=1):
+def spec(fn=None, *, recursive=False, sig=None, fuel=1, abstract=False):
     def deco(f):
-        sf = SpecFun(f, recursive=recursive, sig=sig, fuel=fuel)
+        sf = SpecFun(f, recursive=recursive, sig=sig, fuel=fuel, abstract=abstract)
         REG.specfuns[sf.name] = sf
         return sf
 
